@@ -709,13 +709,16 @@ class Relevance(object):
             save_fwd = self._seed_vars['fwd']
             save_rev = self._seed_vars['rev']
             save_active = self._active
+            # the current arrays need not come from the seeds (see nonlinear_active)
+            save_arrays = (self._current_rel_varray, self._current_rel_sarray)
             self._active = True
             self._set_seeds(self._all_seed_vars['fwd'], self._all_seed_vars['rev'])
             try:
                 yield
             finally:
-                self._active = save_active
                 self._set_seeds(save_fwd, save_rev)
+                self._current_rel_varray, self._current_rel_sarray = save_arrays
+                self._active = save_active
 
     @contextmanager
     def seeds_active(self, fwd_seeds=None, rev_seeds=None):
@@ -741,6 +744,8 @@ class Relevance(object):
             save_fwd = self._seed_vars['fwd']
             save_rev = self._seed_vars['rev']
             save_active = self._active
+            # the current arrays need not come from the seeds (see nonlinear_active)
+            save_arrays = (self._current_rel_varray, self._current_rel_sarray)
             self._active = True
             if fwd_seeds is None:
                 fwd_seeds = self._seed_vars['fwd']
@@ -751,6 +756,7 @@ class Relevance(object):
                 yield
             finally:
                 self._set_seeds(save_fwd, save_rev)
+                self._current_rel_varray, self._current_rel_sarray = save_arrays
                 self._active = save_active
 
     @contextmanager
